@@ -49,7 +49,8 @@ func GenerateSquaresTable(limit int64) *SquaresTable {
 func (t *SquaresTable) Split(delta *big.Int) ([]*big.Int, error) {
 	t_ := *t
 	v := delta.Int64()
-	if !delta.IsInt64() || v < 0 || v >= int64(len(t_)) || v%4 != 2 {
+	// delta = 4*d+2 for the actual difference d, which is the index into the table
+	if !delta.IsInt64() || v < 0 || v%4 != 2 || (v-2)/4 >= int64(len(t_)) {
 		return nil, errors.New("value outside of table range")
 	}
 
